@@ -44,6 +44,8 @@ func runC16(p *Prog, r *Report) {
 	c16ErrorTable(p, r)
 	c16Wiring(p, r)
 	c16Paired(p, r)
+	// R5: the forwarder never crashes on a request it cannot parse: the outgoing target falls back to req.URL when RequestURI does not parse (shared with C08.R1)
+	r.Borrow(p, runC08, map[string]string{"C08.R1": "C16.R5"}, nil)
 	// R4: the recording writer that oxy middlewares put between the forwarder and the client passes status, headers and bytes through unchanged (shared with C20.R3)
 	r.Borrow(p, c20Wrappers, map[string]string{"C20.R3": "C16.R4"}, func(o Ob) bool { return strings.Contains(o.Construct, "ProxyWriter") })
 }
